@@ -39,7 +39,7 @@ func TestMain(m *testing.M) {
 	vstat.Main(m)
 }
 
-var accountKinds = []string{"transfer", "transfer", "token", "call-forward", "call-revert", "call-issue", "create", "prefund-create"}
+var accountKinds = []string{"transfer", "transfer", "token", "call-forward", "call-revert", "call-issue", "call-store", "call-store", "create", "prefund-create"}
 
 var dbNames = []string{"state", "block", "tx", "balance", "utxo", "utxoout", "utxotok", "status"}
 
@@ -94,6 +94,11 @@ func factsOf(s *chainsim.Sim, b *types.Block) *blockFacts {
 }
 
 func sameHoldings(a, b *chainsim.Holdings, universe map[common.Address]struct{}) string {
+	for i := range a.Slots {
+		if a.Slots[i] != b.Slots[i] {
+			return fmt.Sprintf("storage slot %d of the storing contract is %s, expected %s", i, a.Slots[i], b.Slots[i])
+		}
+	}
 	var addrs []common.Address
 	for ad := range universe {
 		addrs = append(addrs, ad)
@@ -523,7 +528,7 @@ func restartAndCheck(s *chainsim.Sim, img *world.DBSet, val *consim.ValKey, powe
 		}
 	}
 	// world state == state after exactly h blocks
-	cs := &chainsim.Sim{W: w, Universe: s.Universe}
+	cs := &chainsim.Sim{W: w, Universe: s.Universe, Contracts: s.Contracts}
 	var got *chainsim.Holdings
 	if rec := try(func() { got = cs.Snapshot() }); rec != nil {
 		return &verdict{"restart-fails:state-unreadable", fmt.Sprintf("reading the state panics: %v", rec)}
